@@ -158,14 +158,15 @@ def build_liblzma(variant, extra_cflags=(), tag=""):
 
 
 def build_harness(name, sources, variant, libdir=None, extra_cflags=(), extra_ld=(), internal=False,
-                  link_lzma=True):
+                  link_lzma=True, nosan_sources=()):
     """Compile a harness (sources relative to /verif) against a liblzma variant. Returns exe path."""
     cc, cflags, ld = VARIANTS[variant]
     if libdir is None and link_lzma:
         libdir = build_liblzma(variant)
     srcs = [os.path.join(VERIF, s) for s in sources]
+    nsrcs = [os.path.join(VERIF, s) for s in nosan_sources]
     h = hashlib.sha256()
-    for s in srcs:
+    for s in srcs + nsrcs:
         h.update(open(s, "rb").read())
     for hd in glob.glob(os.path.join(VERIF, "mc/*.h")) + glob.glob(os.path.join(VERIF, "ref/*.h")) \
             + glob.glob(os.path.join(VERIF, "harness/*.h")):
@@ -192,8 +193,16 @@ def build_harness(name, sources, variant, libdir=None, extra_cflags=(), extra_ld
                "-I" + os.path.join(VERIF, "ref"), "-I" + os.path.join(VERIF, "harness")]
         if internal:
             inc = incflags() + inc[1:]
+        nobjs = []
+        for ns in nsrcs:   # compiled without any sanitizer (the scheduler must be invisible to TSan)
+            o = os.path.join(outd, os.path.basename(ns)[:-2] + ".nosan.o")
+            r = subprocess.run([cc, "-std=gnu11", "-w", "-pthread", "-O1", "-g", "-D_GNU_SOURCE"] + inc + ["-c", ns, "-o", o],
+                               capture_output=True, text=True)
+            if r.returncode:
+                raise BuildError("harness build failed: %s\n%s" % (name, r.stderr[-4000:]))
+            nobjs.append(o)
         cmd = [cc, "-std=gnu11", "-w", "-pthread"] + cf + list(extra_cflags) \
-            + (DEFS if internal else ["-D_GNU_SOURCE"]) + inc + srcs
+            + (DEFS if internal else ["-D_GNU_SOURCE"]) + inc + srcs + nobjs
         if link_lzma:
             cmd += [os.path.join(libdir, "liblzma.a")]
         cmd += ld + list(extra_ld) + ["-o", exe + ".tmp"]
@@ -261,17 +270,31 @@ def load_known():
 # ---------------------------------------------------------------------------------------------------
 # running harness shards
 
-def run_procs(cmds, timeout=None, env=None, jobs=None):
-    """Run commands in parallel; returns list of (cmd, rc, stdout, stderr, timed_out)."""
+def run_procs(cmds, timeout=None, env=None, jobs=None, pin=False):
+    """Run commands in parallel; returns list of (cmd, rc, stdout, stderr, timed_out).
+    pin=True: each process is bound to one CPU (the cooperative scheduler hands over between threads
+    ~8x faster when all threads of a process share a core)."""
+    import queue
+    jobs = jobs or NCPU
+    cpus = queue.Queue()
+    avail = sorted(os.sched_getaffinity(0))
+    for i in range(jobs):
+        cpus.put(avail[i % len(avail)])
+
     def one(cmd):
+        cpu = cpus.get()
         try:
-            r = subprocess.run(cmd, capture_output=True, text=True, errors="replace", timeout=timeout, env=env)
-            return (cmd, r.returncode, r.stdout, r.stderr, False)
-        except subprocess.TimeoutExpired as e:
-            so = e.stdout.decode(errors="replace") if isinstance(e.stdout, bytes) else (e.stdout or "")
-            se = e.stderr.decode(errors="replace") if isinstance(e.stderr, bytes) else (e.stderr or "")
-            return (cmd, -999, so, se, True)
-    with concurrent.futures.ThreadPoolExecutor(jobs or NCPU) as ex:
+            full = (["taskset", "-c", str(cpu)] + cmd) if pin else cmd
+            try:
+                r = subprocess.run(full, capture_output=True, text=True, errors="replace", timeout=timeout, env=env)
+                return (cmd, r.returncode, r.stdout, r.stderr, False)
+            except subprocess.TimeoutExpired as e:
+                so = e.stdout.decode(errors="replace") if isinstance(e.stdout, bytes) else (e.stdout or "")
+                se = e.stderr.decode(errors="replace") if isinstance(e.stderr, bytes) else (e.stderr or "")
+                return (cmd, -999, so, se, True)
+        finally:
+            cpus.put(cpu)
+    with concurrent.futures.ThreadPoolExecutor(jobs) as ex:
         return list(ex.map(one, cmds))
 
 
@@ -377,15 +400,15 @@ class Check:
             self.fail(key, f"{label}: process ended abnormally rc={rc} {sig} case={last_case[:300]}",
                       json.dumps({"cmd": cmd, "case": last_case, "stderr_tail": tail}))
 
-    def run_harness(self, label, exe, argsets, timeout=None, env=None, jobs=None):
+    def run_harness(self, label, exe, argsets, timeout=None, env=None, jobs=None, pin=False, labels=None):
         e = dict(os.environ); e.update(SAN_ENV)
         if env:
             e.update(env)
         if timeout is None:
             timeout = max(5, self.time_left())
-        res = run_procs([[exe] + [str(a) for a in args] for args in argsets], timeout=timeout, env=e, jobs=jobs)
-        for args, r in zip(argsets, res):
-            self.parse(label, r)
+        res = run_procs([[exe] + [str(a) for a in args] for args in argsets], timeout=timeout, env=e, jobs=jobs, pin=pin)
+        for i, (args, r) in enumerate(zip(argsets, res)):
+            self.parse(labels[i] if labels else label, r)
         return res
 
     def finish(self, rule, states_key=None, transitions_key=None, evaluations_key="evals",
